@@ -68,10 +68,8 @@ impl LinuxSllHeader {
             buffer
         };
 
-        Ok(
-            // SAFETY: Safe as the buffer contains exactly the needed LinuxSllHeader::LEN bytes.
-            unsafe { LinuxSllHeaderSlice::from_slice_unchecked(&buffer) }.to_header(),
-        )
+        // the packet type & arp hardware id have to be validated (like in from_slice)
+        LinuxSllHeader::from_bytes(buffer).map_err(err::ReadError::LinuxSll)
     }
 
     /// Serialize the header to a given slice. Returns the unused part of the slice.
